@@ -44,7 +44,8 @@ ASSUMPTIONS = [
     'option combinations each time',
     'row orders: reversal of the whole file in every state; every rotation of the file and every permutation of every '
     'group of <= 6 rows (rows of one table belonging to one class / relationship, and whole small tables) in the initial '
-    'states; permutations of the groups of the edited tables in every single-edit state (groups of <= 4 rows in quick)',
+    'states; permutations of the groups of the edited tables in every single-edit state (groups of <= 3 rows in quick); the '
+    'diagram layout rows (GD_*, DIM_*) are left out of the group permutation runs',
 ]
 
 PALETTES = [
@@ -61,8 +62,8 @@ UNSUPPORTED = ['inst_ref<Object>', 'date']
 
 # (base, palette level, edit depth, main() up to depth, reversed file up to depth, permutations: max group in single-edit states)
 PLAN = {
-    'quick': [('simple', 'quick', 2, 1, 99, 4), ('rich', 'quick', 1, 0, 99, 0)],
-    'thorough': [('simple', 'quick', 3, 1, 2, 6), ('simple', 'full', 2, 2, 99, None), ('rich', 'lean', 2, 1, 99, 4)],
+    'quick': [('simple', 'quick', 2, 1, 99, 3), ('rich', 'quick', 1, 0, 99, 0)],
+    'thorough': [('simple', 'quick', 3, 1, 2, 6), ('simple', 'full', 2, 1, 99, None), ('rich', 'lean', 2, 1, 99, 4)],
 }
 
 TOUCHED = {
@@ -109,6 +110,8 @@ class SchemaModel(bp.EditModel):
             taken = set(a.name for a in c.attrs)
             n = len(c.attrs)
             for i, a in enumerate(c.attrs):
+                if self.lean and i not in (0, 1, n - 1):
+                    continue            # lean palette: first two and last attribute of every class
                 for nm in names:
                     if nm not in taken:
                         ops.append(['rename_attr', c.id, a.id, nm])
@@ -263,6 +266,10 @@ def check_state(ctx, model, w, hist, routes=None, perm=None):
     d = w.d
     deep = routes == 'all' or len(hist) <= model.main_depth
     text = w.text()
+    key = core.h64(text)
+    ctx.distinct('inputs', key)
+    if hist or perm is not None or model.base != 'simple':
+        ctx.distinct('nontrivial_inputs', key)        # anything but the unmodified Simple_Model.xtuml
     ctx.count('states_checked')
 
     def bad(route, scope, derived, fam, kind, msg, exp=None, obs=None, line=None):
@@ -453,13 +460,21 @@ def perm_tasks(ctx, model, max_group_initial, max_group_edit):
     return tasks
 
 
+def permute(w, perm):
+    '''World with the rows rotated (whole file) or one group permuted (layout tables GD_*/DIM_* left out).'''
+    if perm['kind'] == 'rotate':
+        rows = bp.rotated_rows(w.rows, perm['perm'])
+    else:
+        rows = bp.without_graphics(bp.permuted(w.rows, perm['pos'], perm['perm']))
+    return bp.World(rows, w.d, w.fresh)
+
+
 def run_perm_task(sub, task):
     model = SchemaModel(task['base'], sub.tier, sub.seed, level=task['level'])
     w = model.build(task['hist'])
     for p in task['perms']:
         def one():
-            w2 = bp.World(bp.rotated_rows(w.rows, p) if task['kind'] == 'rotate' else bp.permuted(w.rows, task['pos'], p),
-                          w.d, w.fresh)
+            w2 = permute(w, dict(kind=task['kind'], pos=task['pos'], perm=p))
             check_state(sub, model, w2, task['hist'], perm=dict(kind=task['kind'], pos=task['pos'], perm=p))
         sub.count('permutations_run')
         sub.count('perm:' + task['kind'])
@@ -503,6 +518,8 @@ def run(ctx):
         w0 = model.build([])
         err = bp.selfcheck_world(w0) or '; '.join(w0.d.check())
         ctx.require(not err, 'base model %s: %s' % (base, err))
+        loaded = bp.extract(bp.tables_of_metamodel(bp.load_model(w0.text()).build_metamodel()))
+        ctx.require(loaded == w0.d, 'base model %s: the loaded ooaofooa population is not what the rows say' % base)
         res = explorer.bfs(ctx, model, max_depth=depth, chunk=2, label=label)
         ctx.caps_hit[:] = [c for c in ctx.caps_hit if 'depth bound' not in c]      # the depth bound is the stated bound
         total += res['states']
@@ -541,9 +558,7 @@ def replay(ctx, case):
     def one():
         w = model.build(hist)
         if perm:
-            rows = bp.rotated_rows(w.rows, perm['perm']) if perm['kind'] == 'rotate' else \
-                bp.permuted(w.rows, perm['pos'], perm['perm'])
-            check_state(ctx, model, bp.World(rows, w.d, w.fresh), hist, perm=perm)
+            check_state(ctx, model, permute(w, perm), hist, perm=perm)
         else:
             check_state(ctx, model, w, hist, routes='all')
     explorer.guarded(ctx, model, hist, case.get('op'), one)
@@ -556,11 +571,14 @@ def coverage(ctx):
         transitions=ctx.n('transitions'),
         traces_validated_against_impl=ctx.n('traces'),
         evaluations=ctx.n('evaluations'),
-        distinct_nontrivial=ctx.nd('outcomes'),
+        distinct_nontrivial=ctx.nd('nontrivial_inputs'),
+        distinct_inputs=ctx.nd('inputs'),
         distinct_outcomes=ctx.nd('outcomes'),
-        rule='a trace is one (model state, scope, derived flag, route) whose schema was compared with expected_schema; '
-             'distinct_nontrivial counts the distinct schemas observed (classes, identifiers, associations) over all '
-             'edited and synthesised models',
+        rule='a case is one BridgePoint model text (Simple_Model.xtuml after an edit script, a synthesised diagram, or a '
+             'row permutation of one); distinct by the hash of the text, non-trivial = anything but the unmodified '
+             'Simple_Model.xtuml.  Every case is loaded and built for derived_attributes in {False, True} x (whole model + '
+             'each component); a trace / evaluation is one (case, options, route) whose schema was compared with '
+             'expected_schema; distinct_outcomes counts the distinct schemas observed',
         states_checked=ctx.n('states_checked'),
         bfs=bfs_notes,
         family_diagrams=ctx.n('family_diagrams'),
